@@ -10,6 +10,7 @@
 -/
 import MosVerif.Lemmas.LimiterSpec
 import MosVerif.Lemmas.LimiterGc
+import MosVerif.Lemmas.LimiterConc
 import MosVerif.Generated.Facts
 namespace MosVerif.C15
 open MosVerif.Limiter
@@ -122,6 +123,65 @@ example :
     (ClientLimiter.new c).runOps [.allow ⟨a, 0, 0⟩, .gc now, .allow ⟨a, now, 1000⟩, .allow ⟨a, now, 1000⟩] = [true, true, false] ∧
     (ClientLimiter.new c).runOps [.allow ⟨a, 0, 0⟩, .allow ⟨a, now, 1000⟩, .gc now, .allow ⟨a, now, 1000⟩] = [true, true, false] ∧
     (ClientLimiter.new c).runOps [.allow ⟨a, 0, 0⟩, .allow ⟨a, now, 1000⟩, .allow ⟨a, now, 1000⟩, .gc now] = [true, true, false] := by
+  decide
+
+/-! ## concurrency: gc passes racing with arrivals (repair 8757f14)
+
+  `Model/LimiterConc.lean` is a small interleaving model: goroutines' `LoadOrCompute`s, the
+  locked regions of `AllowN` (possibly on a stale pointer) and the locked regions of gc, in
+  any order.
+-/
+
+/-- the state after a schedule -/
+def after (s : CState) : List Step → CState
+  | [] => s
+  | st :: sts => after (s.step st).2 sts
+
+theorem after_inv (c : Opts) (sts : List Step) : (after (CState.init c) sts).Inv := by
+  have h : ∀ (sts : List Step) (s : CState), s.Inv → (after s sts).Inv := by
+    intro sts
+    induction sts with
+    | nil => intro s hs; exact hs
+    | cons st sts ih => intro s hs; exact ih _ (s.inv_step hs st)
+  exact h sts _ (CState.inv_init c)
+
+/-- ★ **no consumption is ever lost.**  In every state reachable by any schedule, a locked
+    region of `AllowN` that returns a verdict runs on the entry that the map currently holds
+    for the key (never on an entry that gc has removed: such an entry is dead and the
+    goroutine loads again). -/
+theorem verdict_on_live_entry (c : Opts) (sts : List Step) (id : Nat) (addr : Addr) (now n : Nat) (v : Bool)
+    (hv : ((after (CState.init c) sts).step (.locked id addr now n)).1 = some v) :
+    (after (CState.init c) sts).map (mask (after (CState.init c) sts).opts addr) = some id :=
+  CState.locked_on_mapped_entry _ (after_inv c sts) id addr now n v hv
+
+theorem abs_init (c : Opts) : (CState.init c).abs = ClientLimiter.new c :=
+  ClientLimiter.ext_pointwise _ _ rfl fun _ => rfl
+
+/-- ★ **linearizability.**  The verdicts returned along any schedule of loads, locked regions
+    (on fresh or stale pointers) and gc regions are exactly the verdicts of the sequential
+    limiter on the schedule's visible steps in schedule order (arrivals whose locked region
+    found a live entry, per-key gc passes). -/
+theorem concurrent_linearizable (c : Opts) (sts : List Step) :
+    (CState.init c).exec sts = (ClientLimiter.new c).runOps ((CState.init c).absOps sts) := by
+  rw [← abs_init]; exact CState.linearizable sts _ (CState.inv_init c)
+
+/-- hence the token bucket bound holds for every schedule whose visible steps carry
+    non-decreasing time stamps -/
+theorem concurrent_bucket_bound (c : Opts) (sts : List Step)
+    (hs : sortedOps ((CState.init c).absOps sts) = true) (k : Addr) (a b : Nat) (hab : a ≤ b) :
+    admittedCost (inWindow c.setDefault k a b) ((CState.init c).absOps sts) ((CState.init c).exec sts) * nano
+      ≤ specBurst c * nano + specLimit c * (b - a) + (specLimit c - 1) := by
+  rw [concurrent_linearizable]; exact bucket_bound c _ hs k a b hab
+
+/-- non-vacuity: a goroutine holding a stale pointer (entry 0, dropped by gc) gets no verdict
+    from it; it loads again (entry 1) and the whole burst is granted once, not twice. -/
+example :
+    let c : Opts := ⟨1, 1000, 0, 0⟩
+    let a : Addr := .v4 0xC0000207
+    let k : Addr := .v4 0xC0000200
+    let now := 600 * nano
+    (CState.init c).exec [.load k, .locked 0 a 0 0, .gcEntry k now, .locked 0 a now 1000,
+        .load k, .locked 1 a now 1000, .locked 0 a now 1000, .locked 1 a now 1000] = [true, true, false] := by
   decide
 
 /-! ## which subnet is the key -/
@@ -346,7 +406,7 @@ example : (limiterAllowN (ResLimiter.init ⟨0, ⟨1, 1, 0, 0⟩⟩) (.v4 1) 0 (
 
 theorem evs_sorted_of_ops : ∀ (os : List Op) (τ : Nat), sortedFrom τ os → sortedEvs τ (Op.evs os)
   | [], _, _ => trivial
-  | .gc now :: os, τ, h => by
+  | .gc now _ :: os, τ, h => by
     have := evs_sorted_of_ops os now h.2
     simp only [Op.evs]
     cases hh : Op.evs os with
@@ -356,7 +416,7 @@ theorem evs_sorted_of_ops : ∀ (os : List Op) (τ : Nat), sortedFrom τ os → 
 
 theorem evs_inRange : ∀ (os : List Op), timesInRange os = true → ∀ e ∈ Op.evs os, e.t ≤ maxDuration
   | [], _, _, he => by simp [Op.evs] at he
-  | .gc _ :: os, h, e, he => by
+  | .gc _ _ :: os, h, e, he => by
     simp only [timesInRange, List.all_cons, Bool.and_eq_true] at h
     exact evs_inRange os h.2 e he
   | .allow e' :: os, h, e, he => by
